@@ -56,14 +56,19 @@ def playback(harness, features=None, timeout=900):
         dst = os.path.join(scratch, 'kani'); shutil.copytree(KDIR, dst, ignore=shutil.ignore_patterns('target'))
         env = dict(os.environ, CARGO_NET_OFFLINE='true'); env.pop('RUSTFLAGS', None)
         tdir = os.path.join(scratch, 'target')
-        cmd = ['timeout', str(timeout), 'cargo', 'kani', '--target-dir', tdir, '-Z', 'concrete-playback', '--concrete-playback=inplace', '--harness', harness]
+        cmd = ['timeout', str(timeout), 'cargo', 'kani', '--target-dir', tdir, '-Z', 'concrete-playback', '--concrete-playback=print', '--harness', harness]
         if features: cmd += ['--features', features]
         p = subprocess.run(cmd, cwd=dst, env=env, stdout=subprocess.PIPE, stderr=subprocess.STDOUT, text=True)
-        gen = ''
-        for fn in os.listdir(os.path.join(dst, 'src')):
-            s = open(os.path.join(dst, 'src', fn)).read()
-            for m in re.finditer(r'#\[test\]\s*fn (kani_concrete_playback_\w+)\(\) \{.*?\n\}', s, re.S): gen += m.group(0) + '\n'
+        tests = re.findall(r'#\[test\]\s*fn kani_concrete_playback_\w+\(\) \{.*?\n\}', p.stdout, re.S)
+        gen = '\n'.join(dict.fromkeys(tests))
         if not gen: return None, '', p.stdout[-2000:]
+        # append the generated unit tests to the module that defines the harness (macro-generated harnesses cannot be patched in place)
+        target = None
+        for fn in sorted(os.listdir(os.path.join(dst, 'src'))):
+            src = open(os.path.join(dst, 'src', fn)).read()
+            if re.search(r'\b%s\b' % re.escape(harness), src) and fn != 'lib.rs': target = fn
+        with open(os.path.join(dst, 'src', target), 'a') as f:
+            f.write('\n#[cfg(test)]\nmod sqv_playback {\n    use super::*;\n' + gen + '\n}\n')
         cmd = ['timeout', str(timeout), 'cargo', 'kani', 'playback', '-Z', 'concrete-playback']
         if features: cmd += ['--features', features]
         cmd += ['--', 'kani_concrete_playback']
